@@ -73,6 +73,7 @@ def make_replay(pid, res, o, scratch):
            'inputs': inputs, 'cbmc_output': excerpt, 'driver': res.unit.get('replay', ''), 'native': None}
     with open(path, 'w') as f:
         json.dump(doc, f, indent=1)
+    write_kv(path, doc)
     reproduced = False
     drv = res.unit.get('replay')
     if drv:
@@ -82,6 +83,13 @@ def make_replay(pid, res, o, scratch):
         with open(path, 'w') as f:
             json.dump(doc, f, indent=1)
     return path, reproduced
+
+
+def write_kv(path, doc):
+    with open(path + '.kv', 'w') as f:
+        f.write('unit=%s\nobligation=%s\n' % (doc['unit'], doc['obligation'].replace('\n', ' ')))
+        for k, v in doc['inputs'].items():
+            f.write('%s=%s\n' % (k, v))
 
 
 def replay_file(path):
@@ -95,6 +103,7 @@ def replay_file(path):
         print('no native driver for this unit; verifier output:', doc.get('cbmc_output'))
         return 0
     scratch = tempfile.mkdtemp(prefix='vp.replay.', dir='/var/tmp')
+    write_kv(path, doc)
     try:
         rep, out = run_driver(doc['driver'], path, scratch)
         print(out)
